@@ -109,7 +109,8 @@ class World:
         from ipv8.keyvault.crypto import default_eccrypto
 
         self.Token, self.TokenTree = Token, TokenTree
-        curve = case["curve"]
+        self.case = case
+        curve = self.curve = case["curve"]
         owner = keypool.key(case["owner"], curve)
         foreign = keypool.key(case["foreign"], curve)
         if owner.pub().key_to_bin() == foreign.pub().key_to_bin():
@@ -232,7 +233,15 @@ class World:
         elif mode == 3 and self.specs[idx]["k"] != "tamper":
             tok = self.Token(prev, content=self.content[idx], signature=sig)
         elif len(sig) == self.sig_len:
-            tok = self.Token.unserialize(self.bytes[idx], self.public_key())
+            try:
+                tok = self.Token.unserialize(self.bytes[idx], self.public_key())
+            except Exception as e:  # noqa: BLE001
+                raise Violation("E5", "Token.unserialize:raises",
+                                f"the {len(self.bytes[idx])}-byte wire form of token {idx} (a {self.curve} key, signatures of "
+                                f"{self.sig_len} bytes) cannot be read back: {type(e).__name__}: {e}", self.case) from e
+            if tok.get_plaintext_signed() != self.bytes[idx]:
+                raise Violation("E5", "Token.unserialize", f"token {idx} of a {self.curve} key reads back from its wire form "
+                                                           f"as other bytes", self.case)
         else:
             tok = self.Token(prev, content_hash=chash, signature=sig)
         if mode == 5:
